@@ -7,87 +7,7 @@
    syntactic predicate `quirk_free`.  The pinned frontend itself is unsound: witnesses below. *)
 From Coq Require Import List Arith Bool Lia.
 Import ListNotations.
-From DDP Require Import Lang.MiniSyntax Lang.MiniTyping Lang.MiniTypingProofs Lang.MiniCheck.
-
-(* ---- syntactic guards ------------------------------------------------------------------------ *)
-Definition callish (e : expr) : bool := match e with ECall _ _ | EField _ _ => true | _ => false end.
-
-Fixpoint fv_expr (e : expr) : list name :=
-  match e with
-  | ELit _ | EEmpty _ => []
-  | EVar x => [x]
-  | EUn _ e => fv_expr e
-  | EBin _ l r => fv_expr l ++ fv_expr r
-  | ECast e _ => fv_expr e
-  | EField _ e => fv_expr e
-  | ECall _ a => fv_args a
-  end
-with fv_args (a : args) : list name :=
-  match a with ANil => [] | ACons e a' => fv_expr e ++ fv_args a' end.
-
-Definition fv_opt (o : option expr) : list name := match o with Some e => fv_expr e | None => [] end.
-
-Definition priv_field (M : imod) (f : name) : bool :=
-  existsb (fun d => match d with
-                    | IStruct _ _ _ fs => existsb (fun q => match q with (false, h, _) => Nat.eqb f h | _ => false end) fs
-                    | _ => false
-                    end) M.
-
-(* names a block declares directly (they end up in the block's own symbol table) *)
-Fixpoint block_decls (b : block) : list name :=
-  match b with
-  | BNil => []
-  | BCons (SVar _ _ x _) r | BCons (SConst _ x _) r => x :: block_decls r
-  | BCons _ r => block_decls r
-  end.
-
-Definition mem (x : name) (l : list name) : bool := existsb (Nat.eqb x) l.
-Definition disjointb (l1 l2 : list name) : bool := forallb (fun x => negb (mem x l2)) l1.
-
-Section Guard.
-Variable Q : quirks.
-Variable M : imod.
-
-Fixpoint gd_expr (e : expr) : bool :=
-  match e with
-  | ELit _ | EEmpty _ | EVar _ => true
-  | EUn _ e => gd_expr e
-  | EBin o l r => gd_expr l && gd_expr r &&
-                  (if q_void_eq Q && is_eq o then negb (callish l) && negb (callish r) else true)
-  | ECast e _ => gd_expr e
-  | EField f e => gd_expr e && (if q_field_unimported Q then negb (priv_field M f) else true)
-  | ECall _ a => gd_args a
-  end
-with gd_args (a : args) : bool :=
-  match a with ANil => true | ACons e a' => gd_expr e && gd_args a' end.
-
-Definition gd_opt (o : option expr) : bool := match o with Some e => gd_expr e | None => true end.
-
-Fixpoint gd_stmt (s : stmt) : bool :=
-  match s with
-  | SVar _ _ x e => gd_expr e && (if q_tc_by_name Q then negb (mem x (fv_expr e)) else true)
-  | SConst _ _ _ | SBreak | SContinue | SReturn None => true
-  | SAssign _ e => gd_expr e
-  | SIf c th el => gd_expr c && gd_block th && gd_block el
-  | SWhile c b => gd_expr c && gd_block b
-  | SFor _ _ x f to st b =>
-      gd_expr f && gd_expr to && gd_opt st && gd_block b &&
-      (if q_void_eq Q then disjointb (fv_expr f ++ fv_expr to ++ fv_opt st) (x :: block_decls b) else true)
-  | SReturn (Some e) => gd_expr e && (if q_void_ret Q then negb (callish e) else true)
-  | SBlock b => gd_block b
-  | SCall _ a => gd_args a
-  end
-with gd_block (b : block) : bool :=
-  match b with BNil => true | BCons s r => gd_stmt s && gd_block r end.
-
-Definition gd_top (t : top) : bool := match t with TFun f => gd_block (f_body f) | TStmt s => gd_stmt s end.
-
-End Guard.
-
-Definition guard (Q : quirks) (p : prog) : bool := forallb (gd_top Q (p_mod p)) (p_tops p).
-
-(* the programs on which none of the quirks of the pinned frontend matters *)
-Definition quirk_free (p : prog) : bool := guard pinned p.
+From DDP Require Import Lang.MiniSyntax Lang.MiniTyping Lang.MiniTypingProofs Lang.MiniCheck Lang.MiniGuard.
 
 (* ---- small facts -------------------------------------------------------------------------- *)
 Lemma app_nil2 : forall {A} (a b : list A), a ++ b = [] -> a = [] /\ b = [].
@@ -419,7 +339,8 @@ Proof. reflexivity. Qed.
 Lemma ck_for_eq : forall F G d r a t x from to step b, ck_stmt Q M F G d r (SFor a t x from to step b) =
   (let (d1, Gb) := ck_block Q M F (bind (push G) x (BVar t)) (S d) r b in
    ((pt_type G t ++ art_diag M t a ++ pt_expr F G from ++ pt_expr F G to ++ pt_opt F G step) ++ d1 ++
-    (rs_expr Gb from ++ rs_expr Gb to ++ rs_opt Gb step) ++
+    (rs_expr (if q_tc_by_name Q then Gb else G) from ++ rs_expr (if q_tc_by_name Q then Gb else G) to ++
+     rs_opt (if q_tc_by_name Q then Gb else G) step) ++
     tcs_stmt Q M (q_tc_by_name Q) F G r (SFor a t x from to step b), G)).
 Proof. reflexivity. Qed.
 Lemma ck_return_eq : forall F G d r oe, ck_stmt Q M F G d r (SReturn oe) =
@@ -660,16 +581,21 @@ Proof.
                     match step with Some e => numericb_expr M F G e | None => true end = true).
     { destruct (q_void_eq Q) eqn:Hq.
       - (* the bounds do not mention names of the body's table: resolving there is resolving here *)
-        pose proof (ck_block_grows _ _ _ _ _ _ _ _ E1) as Hgr. cbn [bind push] in Hgr.
-        destruct Gb as [| scb rb]; [contradiction |]. destruct Hgr as [-> Hnames].
-        assert (Hsame : forall y, In y (fv_expr from ++ fv_expr to ++ fv_opt step) -> lookup (scb :: G) y = lookup G y).
-        { intros y Hy. apply lookup_skip. intros Hin. apply Hnames in Hin.
-          apply (disjointb_spec _ _ _ Hgd Hy). cbn in Hin. destruct Hin as [[<- | []] | Hin]; [left | right]; auto. }
-        rewrite (proj1 (rs_ext (scb :: G) G) from) in Hrf by (intros y Hy; apply Hsame; apply in_or_app; auto).
-        rewrite (proj1 (rs_ext (scb :: G) G) to) in Hrt by (intros y Hy; apply Hsame; apply in_or_app; right; apply in_or_app; auto).
+        assert (Hres : rs_expr G from = [] /\ rs_expr G to = [] /\ rs_opt G step = []).
+        { destruct (q_tc_by_name Q); [| auto].
+          pose proof (ck_block_grows _ _ _ _ _ _ _ _ E1) as Hgr. cbn [bind push] in Hgr.
+          destruct Gb as [| scb rb]; [contradiction |]. destruct Hgr as [-> Hnames].
+          assert (Hsame : forall y, In y (fv_expr from ++ fv_expr to ++ fv_opt step) -> lookup (scb :: G) y = lookup G y).
+          { intros y Hy. apply lookup_skip. intros Hin. apply Hnames in Hin.
+            apply (disjointb_spec _ _ _ Hgd Hy). cbn in Hin. destruct Hin as [[<- | []] | Hin]; [left | right]; auto. }
+          rewrite (proj1 (rs_ext (scb :: G) G) from) in Hrf by (intros y Hy; apply Hsame; apply in_or_app; auto).
+          rewrite (proj1 (rs_ext (scb :: G) G) to) in Hrt by (intros y Hy; apply Hsame; apply in_or_app; right; apply in_or_app; auto).
+          split; [auto | split; [auto |]]. destruct step as [e|]; auto. cbn in *.
+          rewrite (proj1 (rs_ext (scb :: G) G) e) in Hrs by (intros y Hy; apply Hsame; apply in_or_app; right; apply in_or_app; auto).
+          auto. }
+        destruct Hres as [Hrf' [Hrt' Hrs']].
         split; [apply tc_init_sound; auto | split; [apply tc_numeric_sound; auto |]].
         destruct step as [e|]; auto. cbn in *.
-        rewrite (proj1 (rs_ext (scb :: G) G) e) in Hrs by (intros y Hy; apply Hsame; apply in_or_app; right; apply in_or_app; auto).
         apply tc_numeric_sound; auto.
       - split; [apply tc_init_sound_nors; auto | split; [apply tc_numeric_sound_nors; auto |]].
         destruct step as [e|]; auto. cbn in *. apply tc_numeric_sound_nors; auto. }
@@ -956,8 +882,14 @@ Qed.
 Definition only (i : nat) : quirks :=
   {| q_void_eq := Nat.eqb i 0; q_void_ret := Nat.eqb i 1; q_tc_by_name := Nat.eqb i 2; q_field_unimported := Nat.eqb i 3 |}.
 
+(* the loop-bound witness needs two of them: the resolver's misplaced resolution is only harmless while `gleich`
+   rejects operands without a type *)
+Definition void_eq_and_by_name : quirks :=
+  {| q_void_eq := true; q_void_ret := false; q_tc_by_name := true; q_field_unimported := false |}.
+
 Lemma each_quirk_unsound :
   check_with (only 0) w_void_eq = [] /\ check_with (only 1) w_void_ret = [] /\
-  check_with (only 2) w_init_self = [] /\ check_with (only 3) w_priv_field = [] /\ check_with (only 0) w_for_scope = [] /\
+  check_with (only 2) w_init_self = [] /\ check_with (only 3) w_priv_field = [] /\
+  check_with void_eq_and_by_name w_for_scope = [] /\
   Forall (fun p => check_patched p <> []) [w_void_eq; w_void_ret; w_init_self; w_priv_field; w_for_scope].
 Proof. repeat split; try (vm_compute; reflexivity). repeat constructor; vm_compute; discriminate. Qed.
